@@ -104,6 +104,9 @@ type PodSpec struct {
 	SubGroup     string            `json:"sub_group,omitempty"`
 	CPUm         int64             `json:"cpu_m"`
 	MemMi        int64             `json:"mem_mi"`
+	// pod overhead (RuntimeClass): counted on top of the containers' requests
+	OverheadCPUm  int64            `json:"overhead_cpu_m,omitempty"`
+	OverheadMemMi int64            `json:"overhead_mem_mi,omitempty"`
 	GPUs         int64             `json:"gpus,omitempty"`
 	Fraction     string            `json:"fraction,omitempty"`    // gpu-fraction annotation value
 	GPUMemMi     int64             `json:"gpu_mem_mi,omitempty"`  // gpu-memory annotation
@@ -373,6 +376,15 @@ func BuildPod(w *WorkloadSpec, p PodSpec) *corev1.Pod {
 				Resources: corev1.ResourceRequirements{Requests: req, Limits: req.DeepCopy()},
 			}},
 		},
+	}
+	if p.OverheadCPUm > 0 || p.OverheadMemMi > 0 {
+		pod.Spec.Overhead = corev1.ResourceList{}
+		if p.OverheadCPUm > 0 {
+			pod.Spec.Overhead[corev1.ResourceCPU] = milli(p.OverheadCPUm)
+		}
+		if p.OverheadMemMi > 0 {
+			pod.Spec.Overhead[corev1.ResourceMemory] = mi(p.OverheadMemMi)
+		}
 	}
 	for _, t := range p.Tolerations {
 		pod.Spec.Tolerations = append(pod.Spec.Tolerations, corev1.Toleration{
